@@ -284,7 +284,8 @@ def gen_table(rnd, ncols=None, nrows=None, kinds=None, nullable=False, names=Non
     pools = []
     for k in kinds:
         if k == "num":
-            base = rnd.choice([[0, 1, 2, 3], [-2, -1, 0, 1, 2], [1, 1.5, 2, 2.5, 10], [5, 7, 9, 11, 100]])
+            base = rnd.choice([[0, 1, 2, 3], [-2, -1, 0, 1, 2], [1, 1.5, 2, 2.5, 10], [5, 7, 9, 11, 100],
+                               [0.1, 0.2, 0.3, 0.7, 1.1], [16777216, 16777217, 16777218, 123456.789]])
             pools.append(base)
         elif k == "str":
             pools.append(rnd.sample(WORDS, rnd.randint(2, 5)))
